@@ -44,7 +44,9 @@ fn b64(data: &[u8], url: bool, pad: bool) -> String {
     };
     let mut out = String::new();
     for c in data.chunks(3) {
-        let n = (c[0] as u32) << 16 | (*c.get(1).unwrap_or(&0) as u32) << 8 | *c.get(2).unwrap_or(&0) as u32;
+        let n = (c[0] as u32) << 16
+            | (*c.get(1).unwrap_or(&0) as u32) << 8
+            | *c.get(2).unwrap_or(&0) as u32;
         out.push(abc[(n >> 18) as usize & 63] as char);
         out.push(abc[(n >> 12) as usize & 63] as char);
         if c.len() > 1 {
@@ -86,7 +88,16 @@ fn unb64(text: &str) -> Vec<u8> {
 }
 
 fn hexsep(bs: &[u8], upper: bool, sep: &str) -> String {
-    bs.iter().map(|b| if upper { format!("{b:02X}") } else { format!("{b:02x}") }).collect::<Vec<_>>().join(sep)
+    bs.iter()
+        .map(|b| {
+            if upper {
+                format!("{b:02X}")
+            } else {
+                format!("{b:02x}")
+            }
+        })
+        .collect::<Vec<_>>()
+        .join(sep)
 }
 
 /// (encoding name, needle). Needles are searched in the raw text and, with all whitespace removed from both, in
@@ -97,21 +108,56 @@ fn encodings(bytes: &[u8]) -> Vec<(String, String)> {
         v.push(("clear".into(), s.to_string()));
         let d = format!("{s:?}");
         v.push(("clear-debug-escaped".into(), d[1..d.len() - 1].to_string()));
-        v.push(("clear-escape-default".into(), s.escape_default().to_string()));
-        v.push(("clear-escape-unicode".into(), s.chars().map(|c| if c.is_ascii() { c.to_string() } else { c.escape_unicode().to_string() }).collect()));
+        v.push((
+            "clear-escape-default".into(),
+            s.escape_default().to_string(),
+        ));
+        v.push((
+            "clear-escape-unicode".into(),
+            s.chars()
+                .map(|c| {
+                    if c.is_ascii() {
+                        c.to_string()
+                    } else {
+                        c.escape_unicode().to_string()
+                    }
+                })
+                .collect(),
+        ));
     }
     v.push(("hex-lower".into(), hexsep(bytes, false, "")));
     v.push(("hex-upper".into(), hexsep(bytes, true, "")));
     v.push(("hex-lower-space".into(), hexsep(bytes, false, " ")));
     v.push(("hex-lower-colon".into(), hexsep(bytes, false, ":")));
     v.push(("hex-upper-colon".into(), hexsep(bytes, true, ":")));
-    v.push(("hex-0x-list".into(), bytes.iter().map(|b| format!("0x{b:02x}")).collect::<Vec<_>>().join(", ")));
+    v.push((
+        "hex-0x-list".into(),
+        bytes
+            .iter()
+            .map(|b| format!("0x{b:02x}"))
+            .collect::<Vec<_>>()
+            .join(", "),
+    ));
     v.push(("base64-std-pad".into(), b64(bytes, false, true)));
     v.push(("base64-std-nopad".into(), b64(bytes, false, false)));
     v.push(("base64-url-pad".into(), b64(bytes, true, true)));
     v.push(("base64-url-nopad".into(), b64(bytes, true, false)));
-    v.push(("byte-list".into(), bytes.iter().map(|b| b.to_string()).collect::<Vec<_>>().join(", ")));
-    v.push(("byte-list-nospace".into(), bytes.iter().map(|b| b.to_string()).collect::<Vec<_>>().join(",")));
+    v.push((
+        "byte-list".into(),
+        bytes
+            .iter()
+            .map(|b| b.to_string())
+            .collect::<Vec<_>>()
+            .join(", "),
+    ));
+    v.push((
+        "byte-list-nospace".into(),
+        bytes
+            .iter()
+            .map(|b| b.to_string())
+            .collect::<Vec<_>>()
+            .join(","),
+    ));
     v.retain(|(_, n)| n.len() >= 8);
     v.sort();
     v.dedup_by(|a, b| a.1 == b.1);
@@ -125,7 +171,10 @@ pub struct Secret {
 }
 
 fn password_secret(pw: &str) -> Secret {
-    Secret { name: "ssh-password".into(), needles: encodings(pw.as_bytes()) }
+    Secret {
+        name: "ssh-password".into(),
+        needles: encodings(pw.as_bytes()),
+    }
 }
 
 /// DER TLV at `pos`: (tag, content start, content end)
@@ -184,7 +233,9 @@ fn private_regions(der: &[u8]) -> Vec<(usize, usize)> {
         None
     }
     let whole = vec![(0, der.len())];
-    let Some((t, cs, ce)) = tlv(der, 0) else { return whole };
+    let Some((t, cs, ce)) = tlv(der, 0) else {
+        return whole;
+    };
     if t != 0x30 {
         return whole;
     }
@@ -206,7 +257,11 @@ fn private_regions(der: &[u8]) -> Vec<(usize, usize)> {
 /// needles of a private key file: the whole DER / PEM body in every encoding, plus — so that partial dumps are seen
 /// too — every PEM body line and every 16-byte window (hex / byte list) that overlaps the private part of the key
 fn key_secret(pem_text: &str) -> Secret {
-    let lines: Vec<&str> = pem_text.lines().map(|l| l.trim()).filter(|l| !l.is_empty() && !l.starts_with("-----")).collect();
+    let lines: Vec<&str> = pem_text
+        .lines()
+        .map(|l| l.trim())
+        .filter(|l| !l.is_empty() && !l.starts_with("-----"))
+        .collect();
     let body: String = lines.concat();
     let der = unb64(&body);
     let regions = private_regions(&der);
@@ -216,12 +271,18 @@ fn key_secret(pem_text: &str) -> Secret {
         needles.push((format!("der-{e}"), n));
     }
     needles.push(("base64-pem-body".into(), body.clone()));
-    needles.push(("base64-pem-body-nopad".into(), body.trim_end_matches('=').to_string()));
+    needles.push((
+        "base64-pem-body-nopad".into(),
+        body.trim_end_matches('=').to_string(),
+    ));
     let mut off = 0;
     for l in lines.iter() {
         let nbytes = l.trim_end_matches('=').len() * 3 / 4;
         if l.len() >= 24 && private(off, off + nbytes) {
-            needles.push(("base64-pem-body-line".to_string(), l.trim_end_matches('=').to_string()));
+            needles.push((
+                "base64-pem-body-line".to_string(),
+                l.trim_end_matches('=').to_string(),
+            ));
         }
         off += nbytes;
     }
@@ -234,12 +295,21 @@ fn key_secret(pem_text: &str) -> Secret {
                 needles.push(("hex-lower-der-window".into(), hexsep(w, false, "")));
                 needles.push(("hex-upper-der-window".into(), hexsep(w, true, "")));
                 needles.push(("hex-lower-colon-der-window".into(), hexsep(w, false, ":")));
-                needles.push(("byte-list-der-window".into(), w.iter().map(|b| b.to_string()).collect::<Vec<_>>().join(", ")));
+                needles.push((
+                    "byte-list-der-window".into(),
+                    w.iter()
+                        .map(|b| b.to_string())
+                        .collect::<Vec<_>>()
+                        .join(", "),
+                ));
             }
             off += 8;
         }
     }
-    Secret { name: "tls-client-key".into(), needles }
+    Secret {
+        name: "tls-client-key".into(),
+        needles,
+    }
 }
 
 /// coarse, stable name of an encoding for the violation class
@@ -299,11 +369,25 @@ struct Vis {
 impl tracing::field::Visit for Vis {
     fn record_debug(&mut self, field: &tracing::field::Field, value: &dyn std::fmt::Debug) {
         self.names.push(field.name().to_string());
-        let _ = write!(self.text, " {}={:?} {}={:#?}", field.name(), value, field.name(), value);
+        let _ = write!(
+            self.text,
+            " {}={:?} {}={:#?}",
+            field.name(),
+            value,
+            field.name(),
+            value
+        );
     }
     fn record_str(&mut self, field: &tracing::field::Field, value: &str) {
         self.names.push(field.name().to_string());
-        let _ = write!(self.text, " {}={} {}={:?}", field.name(), value, field.name(), value);
+        let _ = write!(
+            self.text,
+            " {}={} {}={:?}",
+            field.name(),
+            value,
+            field.name(),
+            value
+        );
     }
 }
 
@@ -311,7 +395,12 @@ struct MetaLayer {
     recs: Arc<Mutex<Vec<Rec>>>,
 }
 impl<S: tracing::Subscriber> Layer<S> for MetaLayer {
-    fn on_new_span(&self, attrs: &tracing::span::Attributes<'_>, _id: &tracing::span::Id, _ctx: tracing_subscriber::layer::Context<'_, S>) {
+    fn on_new_span(
+        &self,
+        attrs: &tracing::span::Attributes<'_>,
+        _id: &tracing::span::Id,
+        _ctx: tracing_subscriber::layer::Context<'_, S>,
+    ) {
         let md = attrs.metadata();
         let mut v = Vis::default();
         attrs.record(&mut v);
@@ -327,12 +416,29 @@ impl<S: tracing::Subscriber> Layer<S> for MetaLayer {
             text: format!("{}{}", md.name(), v.text),
         });
     }
-    fn on_record(&self, _id: &tracing::span::Id, values: &tracing::span::Record<'_>, _ctx: tracing_subscriber::layer::Context<'_, S>) {
+    fn on_record(
+        &self,
+        _id: &tracing::span::Id,
+        values: &tracing::span::Record<'_>,
+        _ctx: tracing_subscriber::layer::Context<'_, S>,
+    ) {
         let mut v = Vis::default();
         values.record(&mut v);
-        self.recs.lock().unwrap().push(Rec { kind: "record", target: "?".into(), file: "".into(), line: 0, level: "trace".into(), names: v.names, text: v.text });
+        self.recs.lock().unwrap().push(Rec {
+            kind: "record",
+            target: "?".into(),
+            file: "".into(),
+            line: 0,
+            level: "trace".into(),
+            names: v.names,
+            text: v.text,
+        });
     }
-    fn on_event(&self, event: &tracing::Event<'_>, _ctx: tracing_subscriber::layer::Context<'_, S>) {
+    fn on_event(
+        &self,
+        event: &tracing::Event<'_>,
+        _ctx: tracing_subscriber::layer::Context<'_, S>,
+    ) {
         use tracing_log::NormalizeEvent;
         let norm = event.normalized_metadata();
         let md = norm.as_ref().unwrap_or_else(|| event.metadata());
@@ -344,7 +450,11 @@ impl<S: tracing::Subscriber> Layer<S> for MetaLayer {
             file: md.file().unwrap_or("").into(),
             line: md.line().unwrap_or(0),
             level: md.level().to_string().to_lowercase(),
-            names: v.names.into_iter().filter(|n| !n.starts_with("log.")).collect(),
+            names: v
+                .names
+                .into_iter()
+                .filter(|n| !n.starts_with("log."))
+                .collect(),
             text: v.text,
         });
     }
@@ -383,7 +493,11 @@ fn capture<R>(directive: &str, f: impl FnOnce() -> R) -> (R, Capture) {
     let recs = Arc::new(Mutex::new(Vec::new()));
     let sub = tracing_subscriber::registry()
         .with(EnvFilter::new(directive))
-        .with(tracing_subscriber::fmt::layer().with_ansi(false).with_writer(BufWriter(buf.clone())))
+        .with(
+            tracing_subscriber::fmt::layer()
+                .with_ansi(false)
+                .with_writer(BufWriter(buf.clone())),
+        )
         .with(MetaLayer { recs: recs.clone() });
     let r = tracing::subscriber::with_default(sub, f);
     let text = String::from_utf8_lossy(&buf.lock().unwrap()).to_string();
@@ -396,7 +510,10 @@ fn crate_of(target: &str) -> &str {
 }
 
 fn is_own(target: &str) -> bool {
-    matches!(crate_of(target), "bgpfu_netconf" | "netconf" | "bgpfu_junos_agent" | "bgpfu_lib" | "vh")
+    matches!(
+        crate_of(target),
+        "bgpfu_netconf" | "netconf" | "bgpfu_junos_agent" | "bgpfu_lib" | "vh"
+    )
 }
 
 /// verdict for one capture: "ok" or "violation <class>"
@@ -412,18 +529,42 @@ fn verdict(cap: &Capture, extra: &[(&str, String)], secrets: &[Secret], sink: &m
             if let Some((enc, _)) = scan(&r.text, &st, s) {
                 any_rec = true;
                 if is_own(&r.target) {
-                    sample_once(sink, format!("LEAK {} as {enc} in record of {}: {}", s.name, r.target, r.text.chars().take(300).collect::<String>()));
+                    sample_once(
+                        sink,
+                        format!(
+                            "LEAK {} as {enc} in record of {}: {}",
+                            s.name,
+                            r.target,
+                            r.text.chars().take(300).collect::<String>()
+                        ),
+                    );
                     return format!("violation leak:{}:{}:{}", r.target, s.name, family(&enc));
                 }
-                sink.count(&format!("dep-leak.{}.{}.{}", crate_of(&r.target), s.name, family(&enc)));
-                sample_once(sink, format!("DEP-LEAK (not judged) {} as {enc} in record of {}: {}", s.name, r.target, r.text.chars().take(200).collect::<String>()));
+                sink.count(&format!(
+                    "dep-leak.{}.{}.{}",
+                    crate_of(&r.target),
+                    s.name,
+                    family(&enc)
+                ));
+                sample_once(
+                    sink,
+                    format!(
+                        "DEP-LEAK (not judged) {} as {enc} in record of {}: {}",
+                        s.name,
+                        r.target,
+                        r.text.chars().take(200).collect::<String>()
+                    ),
+                );
             }
         }
         if !any_rec {
             if let Some((enc, pos)) = scan(&cap.text, &stripped, s) {
                 let line = if pos != usize::MAX {
                     let a = cap.text[..pos].rfind('\n').map(|p| p + 1).unwrap_or(0);
-                    let b = cap.text[pos..].find('\n').map(|p| p + pos).unwrap_or(cap.text.len());
+                    let b = cap.text[pos..]
+                        .find('\n')
+                        .map(|p| p + pos)
+                        .unwrap_or(cap.text.len());
                     cap.text[a..b].chars().take(400).collect::<String>()
                 } else {
                     String::new()
@@ -437,7 +578,14 @@ fn verdict(cap: &Capture, extra: &[(&str, String)], secrets: &[Secret], sink: &m
         let st = strip_ws(text);
         for s in secrets {
             if let Some((enc, _)) = scan(text, &st, s) {
-                sample_once(sink, format!("LEAK {} as {enc} in {wh}: {}", s.name, text.chars().take(300).collect::<String>()));
+                sample_once(
+                    sink,
+                    format!(
+                        "LEAK {} as {enc} in {wh}: {}",
+                        s.name,
+                        text.chars().take(300).collect::<String>()
+                    ),
+                );
                 return format!("violation leak:{wh}:{}:{}", s.name, family(&enc));
             }
         }
@@ -449,27 +597,46 @@ fn verdict(cap: &Capture, extra: &[(&str, String)], secrets: &[Secret], sink: &m
 // peers (on the server runtime: no subscriber there)
 fn server_rt() -> &'static tokio::runtime::Runtime {
     static RT: std::sync::OnceLock<tokio::runtime::Runtime> = std::sync::OnceLock::new();
-    RT.get_or_init(|| tokio::runtime::Builder::new_multi_thread().worker_threads(2).enable_all().thread_name("c20-peer").build().unwrap())
+    RT.get_or_init(|| {
+        tokio::runtime::Builder::new_multi_thread()
+            .worker_threads(2)
+            .enable_all()
+            .thread_name("c20-peer")
+            .build()
+            .unwrap()
+    })
 }
 
 fn load_cert_path(p: &str) -> CertificateDer<'static> {
     let data = std::fs::read(p).expect("cert file");
-    let c = rustls_pemfile::certs(&mut std::io::BufReader::new(&data[..])).next().unwrap().unwrap();
+    let c = rustls_pemfile::certs(&mut std::io::BufReader::new(&data[..]))
+        .next()
+        .unwrap()
+        .unwrap();
     c
 }
 fn load_key_path(p: &str) -> PrivateKeyDer<'static> {
     let data = std::fs::read(p).expect("key file");
-    let k = rustls_pemfile::private_key(&mut std::io::BufReader::new(&data[..])).unwrap().unwrap();
+    let k = rustls_pemfile::private_key(&mut std::io::BufReader::new(&data[..]))
+        .unwrap()
+        .unwrap();
     k
 }
 
 fn acceptor_client_auth() -> TlsAcceptor {
     let mut roots = RootCertStore::empty();
-    roots.add(load_cert_path(&format!("{CERT_DIR}/ca.pem"))).unwrap();
-    let verifier = WebPkiClientVerifier::builder(Arc::new(roots)).build().unwrap();
+    roots
+        .add(load_cert_path(&format!("{CERT_DIR}/ca.pem")))
+        .unwrap();
+    let verifier = WebPkiClientVerifier::builder(Arc::new(roots))
+        .build()
+        .unwrap();
     let cfg = ServerConfig::builder()
         .with_client_cert_verifier(verifier)
-        .with_single_cert(vec![load_cert_path(&format!("{CERT_DIR}/server.pem"))], load_key_path(&format!("{CERT_DIR}/server.key")))
+        .with_single_cert(
+            vec![load_cert_path(&format!("{CERT_DIR}/server.pem"))],
+            load_key_path(&format!("{CERT_DIR}/server.key")),
+        )
         .unwrap();
     TlsAcceptor::from(Arc::new(cfg))
 }
@@ -477,15 +644,22 @@ fn acceptor_client_auth() -> TlsAcceptor {
 /// NETCONF-over-TLS peer: hello, then `<ok/>` to every request. Accepts `conns` connections. Returns the port.
 fn start_tls_peer(conns: usize) -> u16 {
     let rt = server_rt();
-    let listener = rt.block_on(async { tokio::net::TcpListener::bind("127.0.0.1:0").await.unwrap() });
+    let listener =
+        rt.block_on(async { tokio::net::TcpListener::bind("127.0.0.1:0").await.unwrap() });
     let port = listener.local_addr().unwrap().port();
     let acc = acceptor_client_auth();
     rt.spawn(async move {
         for _ in 0..conns {
-            let Ok(Ok((sock, _))) = tokio::time::timeout(Duration::from_secs(20), listener.accept()).await else { return };
+            let Ok(Ok((sock, _))) =
+                tokio::time::timeout(Duration::from_secs(20), listener.accept()).await
+            else {
+                return;
+            };
             let acc = acc.clone();
             tokio::spawn(async move {
-                let Ok(mut tls) = acc.accept(sock).await else { return };
+                let Ok(mut tls) = acc.accept(sock).await else {
+                    return;
+                };
                 if tls.write_all(HELLO.as_bytes()).await.is_err() {
                     return;
                 }
@@ -521,14 +695,19 @@ fn start_ssh_peer(accept: bool) -> (u16, Arc<Mutex<Option<String>>>) {
     let rt = server_rt();
     let seen = Arc::new(Mutex::new(None));
     let seen2 = seen.clone();
-    let (port, mut ready, conn) = rt.block_on(async move { crate::sshserver::start(accept, Some(seen2)).await });
+    let (port, mut ready, conn) =
+        rt.block_on(async move { crate::sshserver::start(accept, Some(seen2)).await });
     rt.spawn(async move {
         let r = tokio::time::timeout(Duration::from_secs(10), ready.recv()).await;
         if let Ok(Some((handle, ch))) = r {
             tokio::time::sleep(Duration::from_millis(20)).await;
-            let _ = handle.data(ch, russh::CryptoVec::from_slice(HELLO.as_bytes())).await;
+            let _ = handle
+                .data(ch, russh::CryptoVec::from_slice(HELLO.as_bytes()))
+                .await;
             // the client's first rpc is <close-session message-id="1">
-            let _ = handle.data(ch, russh::CryptoVec::from_slice(ok_reply("1").as_bytes())).await;
+            let _ = handle
+                .data(ch, russh::CryptoVec::from_slice(ok_reply("1").as_bytes()))
+                .await;
             tokio::time::sleep(Duration::from_secs(3)).await;
         } else {
             tokio::time::sleep(Duration::from_secs(3)).await;
@@ -541,14 +720,23 @@ fn start_ssh_peer(accept: bool) -> (u16, Arc<Mutex<Option<String>>>) {
 // ------------------------------------------------------------------------------------------------------------
 // cases
 fn client_rt() -> tokio::runtime::Runtime {
-    tokio::runtime::Builder::new_current_thread().enable_all().build().unwrap()
+    tokio::runtime::Builder::new_current_thread()
+        .enable_all()
+        .build()
+        .unwrap()
 }
 
 fn key_files(key: &str) -> (String, String) {
     if key == "rsa_pkcs8" {
-        (format!("{CERT_DIR}/client.pem"), format!("{CERT_DIR}/client.key"))
+        (
+            format!("{CERT_DIR}/client.pem"),
+            format!("{CERT_DIR}/client.key"),
+        )
     } else {
-        (format!("{CERT_DIR}/c20/{key}.pem"), format!("{CERT_DIR}/c20/{key}.key"))
+        (
+            format!("{CERT_DIR}/c20/{key}.pem"),
+            format!("{CERT_DIR}/c20/{key}.key"),
+        )
     }
 }
 const KEYS: &[&str] = &["rsa_pkcs8", "ed25519", "ec_sec1", "rsa_pkcs1"];
@@ -558,20 +746,45 @@ fn sites(cap: &Capture, seen: &mut BTreeSet<String>) {
         if r.kind == "record" {
             continue;
         }
-        let rel = ["netconf/src/", "junos-agent/src/"].iter().find_map(|p| r.file.find(p).map(|i| r.file[i..].to_string()));
+        let rel = ["netconf/src/", "junos-agent/src/"]
+            .iter()
+            .find_map(|p| r.file.find(p).map(|i| r.file[i..].to_string()));
         let Some(rel) = rel else { continue };
         // `#[async_trait]` renames `self` to `__self` inside the method body
-        let mut names: Vec<String> = r.names.iter().filter(|n| *n != "message").map(|n| n.strip_prefix("__").filter(|r| r.starts_with("self")).unwrap_or(n).to_string()).collect();
+        let mut names: Vec<String> = r
+            .names
+            .iter()
+            .filter(|n| *n != "message")
+            .map(|n| {
+                n.strip_prefix("__")
+                    .filter(|r| r.starts_with("self"))
+                    .unwrap_or(n)
+                    .to_string()
+            })
+            .collect();
         names.sort();
         names.dedup();
-        seen.insert(format!("logs specsite {} {} {} {} {}", r.kind, hexs(&rel), r.line, r.level, list(&names)));
+        seen.insert(format!(
+            "logs specsite {} {} {} {} {}",
+            r.kind,
+            hexs(&rel),
+            r.line,
+            r.level,
+            list(&names)
+        ));
     }
 }
 
 /// keep one sample per distinct text prefix (the first eight samples would all be the same russh line)
 fn sample_once(sink: &mut Sink, s: String) {
     let key: String = s.chars().filter(|c| !c.is_ascii_digit()).take(60).collect();
-    if !sink.samples.iter().any(|x| x.chars().filter(|c| !c.is_ascii_digit()).take(60).collect::<String>() == key) {
+    if !sink.samples.iter().any(|x| {
+        x.chars()
+            .filter(|c| !c.is_ascii_digit())
+            .take(60)
+            .collect::<String>()
+            == key
+    }) {
         sink.sample(s);
     }
 }
@@ -588,7 +801,8 @@ fn run_ssh(ctx: &mut Ctx, case: &str, accept: bool, pw: &str, directive: &str) {
     let (res, cap) = capture(directive, || {
         client_rt().block_on(async {
             let r = tokio::time::timeout(Duration::from_secs(15), async {
-                let s = Session::ssh(("127.0.0.1", port), "vérif user".to_string(), password).await?;
+                let s =
+                    Session::ssh(("127.0.0.1", port), "vérif user".to_string(), password).await?;
                 let fut = s.close().await?;
                 fut.await
             })
@@ -604,19 +818,50 @@ fn run_ssh(ctx: &mut Ctx, case: &str, accept: bool, pw: &str, directive: &str) {
         })
     });
     let delivered = seen.lock().unwrap().as_deref() == Some(pw);
-    ctx.sink.count(if delivered { "ssh.password_reached_server" } else { "ssh.password_not_seen_by_server" });
-    ctx.sink.count(&format!("ssh.outcome.{}", res.split(':').next().unwrap()));
-    finish(ctx, case, &cap, &[("returned-error", res)], &[password_secret(pw)], directive);
+    ctx.sink.count(if delivered {
+        "ssh.password_reached_server"
+    } else {
+        "ssh.password_not_seen_by_server"
+    });
+    ctx.sink
+        .count(&format!("ssh.outcome.{}", res.split(':').next().unwrap()));
+    finish(
+        ctx,
+        case,
+        &cap,
+        &[("returned-error", res)],
+        &[password_secret(pw)],
+        directive,
+    );
 }
 
 fn run_tls(ctx: &mut Ctx, case: &str, variant: &str, key: &str, directive: &str) {
     let port = start_tls_peer(1);
     let (certp, keyp) = key_files(key);
     let key_text = std::fs::read_to_string(&keyp).unwrap();
-    let ca = load_cert_path(&format!("{CERT_DIR}/{}", if variant == "wrongca" { "client.pem" } else { "ca.pem" }));
-    let cert = load_cert_path(&if variant == "mismatch" { format!("{CERT_DIR}/client.pem") } else { certp });
-    let keyder = if variant == "mismatch" && key == "rsa_pkcs8" { load_key_path(&key_files("ed25519").1) } else { load_key_path(&keyp) };
-    let name = if variant == "badname" { "wrong.example" } else { "localhost" };
+    let ca = load_cert_path(&format!(
+        "{CERT_DIR}/{}",
+        if variant == "wrongca" {
+            "client.pem"
+        } else {
+            "ca.pem"
+        }
+    ));
+    let cert = load_cert_path(&if variant == "mismatch" {
+        format!("{CERT_DIR}/client.pem")
+    } else {
+        certp
+    });
+    let keyder = if variant == "mismatch" && key == "rsa_pkcs8" {
+        load_key_path(&key_files("ed25519").1)
+    } else {
+        load_key_path(&keyp)
+    };
+    let name = if variant == "badname" {
+        "wrong.example"
+    } else {
+        "localhost"
+    };
     let (res, cap) = capture(directive, || {
         client_rt().block_on(async {
             let r = tokio::time::timeout(Duration::from_secs(15), async {
@@ -635,12 +880,24 @@ fn run_tls(ctx: &mut Ctx, case: &str, variant: &str, key: &str, directive: &str)
             }
         })
     });
-    ctx.sink.count(&format!("tls.{variant}.outcome.{}", res.split(':').next().unwrap()));
+    ctx.sink.count(&format!(
+        "tls.{variant}.outcome.{}",
+        res.split(':').next().unwrap()
+    ));
     let mut secrets = vec![key_secret(&key_text)];
     if variant == "mismatch" && key == "rsa_pkcs8" {
-        secrets = vec![key_secret(&std::fs::read_to_string(key_files("ed25519").1).unwrap())];
+        secrets = vec![key_secret(
+            &std::fs::read_to_string(key_files("ed25519").1).unwrap(),
+        )];
     }
-    finish(ctx, case, &cap, &[("returned-error", res)], &secrets, directive);
+    finish(
+        ctx,
+        case,
+        &cap,
+        &[("returned-error", res)],
+        &secrets,
+        directive,
+    );
 }
 
 fn run_cli(ctx: &mut Ctx, case: &str, directive: &str) {
@@ -662,19 +919,40 @@ fn run_cli(ctx: &mut Ctx, case: &str, directive: &str) {
             }
         })
     });
-    ctx.sink.count(&format!("cli.outcome.{}", res.split(':').next().unwrap()));
+    ctx.sink
+        .count(&format!("cli.outcome.{}", res.split(':').next().unwrap()));
     // no credential is handed to this transport: the capture is searched for the fixed canaries of the other two
-    let secrets = vec![password_secret(PASSWORDS[0]), key_secret(&std::fs::read_to_string(key_files("rsa_pkcs8").1).unwrap())];
-    finish(ctx, case, &cap, &[("returned-error", res)], &secrets, directive);
+    let secrets = vec![
+        password_secret(PASSWORDS[0]),
+        key_secret(&std::fs::read_to_string(key_files("rsa_pkcs8").1).unwrap()),
+    ];
+    finish(
+        ctx,
+        case,
+        &cap,
+        &[("returned-error", res)],
+        &secrets,
+        directive,
+    );
 }
 
-fn finish(ctx: &mut Ctx, case: &str, cap: &Capture, extra: &[(&str, String)], secrets: &[Secret], directive: &str) {
+fn finish(
+    ctx: &mut Ctx,
+    case: &str,
+    cap: &Capture,
+    extra: &[(&str, String)],
+    secrets: &[Secret],
+    directive: &str,
+) {
     let v = verdict(cap, extra, secrets, &mut ctx.sink);
     ctx.sink.direct(case, v);
     sites(cap, &mut ctx.sites);
     ctx.sink.add("captured.bytes", cap.text.len() as u64);
     ctx.sink.add("captured.records", cap.recs.len() as u64);
-    ctx.sink.add(&format!("captured.records.directive.{directive}"), cap.recs.len() as u64);
+    ctx.sink.add(
+        &format!("captured.records.directive.{directive}"),
+        cap.recs.len() as u64,
+    );
     let mut crates: BTreeSet<String> = BTreeSet::new();
     for r in &cap.recs {
         if r.kind == "event" {
@@ -684,7 +962,10 @@ fn finish(ctx: &mut Ctx, case: &str, cap: &Capture, extra: &[(&str, String)], se
     for c in crates {
         ctx.sink.count(&format!("events.from.{c}"));
     }
-    ctx.sink.add("needles.searched", secrets.iter().map(|s| s.needles.len() as u64).sum());
+    ctx.sink.add(
+        "needles.searched",
+        secrets.iter().map(|s| s.needles.len() as u64).sum(),
+    );
 }
 
 const PASSWORDS: &[&str] = &[
@@ -696,7 +977,16 @@ const PASSWORDS: &[&str] = &[
     "Password(\"****\")-lookalike",
 ];
 
-const DIRECTIVES: &[&str] = &["trace", "debug", "info", "warn", "netconf=trace", "russh=trace,rustls=trace,tokio=trace", "netconf[ssh]=trace,netconf[connect]=trace,russh=debug", "off"];
+const DIRECTIVES: &[&str] = &[
+    "trace",
+    "debug",
+    "info",
+    "warn",
+    "netconf=trace",
+    "russh=trace,rustls=trace,tokio=trace",
+    "netconf[ssh]=trace,netconf[connect]=trace,russh=debug",
+    "off",
+];
 
 // ------------------------------------------------------------------------------------------------------------
 // agent binary
@@ -708,7 +998,9 @@ fn repo_target() -> PathBuf {
     if repo == "/repo" {
         PathBuf::from(base)
     } else {
-        let h = repo.bytes().fold(0xcbf29ce484222325u64, |a, b| (a ^ b as u64).wrapping_mul(0x100000001b3));
+        let h = repo.bytes().fold(0xcbf29ce484222325u64, |a, b| {
+            (a ^ b as u64).wrapping_mul(0x100000001b3)
+        });
         PathBuf::from(format!("{base}-{h:016x}"))
     }
 }
@@ -716,7 +1008,15 @@ fn repo_target() -> PathBuf {
 fn build_agent(sink: &mut Sink) -> Option<PathBuf> {
     let repo = std::env::var("VERIF_REPO").unwrap_or_else(|_| "/repo".into());
     let st = Command::new("cargo")
-        .args(["build", "--offline", "--manifest-path", &format!("{repo}/Cargo.toml"), "-p", "bgpfu-junos-agent", "--target-dir"])
+        .args([
+            "build",
+            "--offline",
+            "--manifest-path",
+            &format!("{repo}/Cargo.toml"),
+            "-p",
+            "bgpfu-junos-agent",
+            "--target-dir",
+        ])
         .arg(repo_target())
         .env("CARGO_NET_OFFLINE", "true")
         .env_remove("RUSTFLAGS")
@@ -726,7 +1026,17 @@ fn build_agent(sink: &mut Sink) -> Option<PathBuf> {
     match st {
         Ok(o) if o.status.success() => Some(repo_target().join("debug/bgpfu-junos-agent")),
         Ok(o) => {
-            sink.notes.push(format!("agent build failed: {}", String::from_utf8_lossy(&o.stderr).chars().rev().take(300).collect::<String>().chars().rev().collect::<String>()));
+            sink.notes.push(format!(
+                "agent build failed: {}",
+                String::from_utf8_lossy(&o.stderr)
+                    .chars()
+                    .rev()
+                    .take(300)
+                    .collect::<String>()
+                    .chars()
+                    .rev()
+                    .collect::<String>()
+            ));
             None
         }
         Err(e) => {
@@ -737,8 +1047,21 @@ fn build_agent(sink: &mut Sink) -> Option<PathBuf> {
 }
 
 const SCENARIOS: &[&str] = &[
-    "ok", "swapped", "key-as-cert", "key-as-ca", "truncated", "joined-header", "one-line", "cr-only", "short-dashes", "bad-base64",
-    "bad-last-symbol", "wrong-label", "begin-in-body", "no-final-newline", "crlf",
+    "ok",
+    "swapped",
+    "key-as-cert",
+    "key-as-ca",
+    "truncated",
+    "joined-header",
+    "one-line",
+    "cr-only",
+    "short-dashes",
+    "bad-base64",
+    "bad-last-symbol",
+    "wrong-label",
+    "begin-in-body",
+    "no-final-newline",
+    "crlf",
 ];
 
 /// (ca, cert, key) paths for a scenario; damaged files are written below `dir`
@@ -762,10 +1085,27 @@ fn scenario_files(dir: &PathBuf, sc: &str, key: &str) -> (String, String, String
             let cut = text.len() * 2 / 3;
             (ca, certp, damaged(text[..cut].to_string() + "\n"))
         }
-        "joined-header" => (ca, certp, damaged(format!("{}{}\n{}\n", lines[0], lines[1], lines[2..].join("\n")))),
+        "joined-header" => (
+            ca,
+            certp,
+            damaged(format!(
+                "{}{}\n{}\n",
+                lines[0],
+                lines[1],
+                lines[2..].join("\n")
+            )),
+        ),
         "one-line" => (ca, certp, damaged(lines.join(" ") + "\n")),
         "cr-only" => (ca, certp, damaged(lines.join("\r") + "\n")),
-        "short-dashes" => (ca, certp, damaged(format!("{}\n{}\n", lines[0].trim_end_matches('-').to_string() + "----", lines[1..].join("\n")))),
+        "short-dashes" => (
+            ca,
+            certp,
+            damaged(format!(
+                "{}\n{}\n",
+                lines[0].trim_end_matches('-').to_string() + "----",
+                lines[1..].join("\n")
+            )),
+        ),
         "bad-base64" => {
             let mut l: Vec<String> = lines.iter().map(|s| s.to_string()).collect();
             l[1].insert(7, '!');
@@ -778,15 +1118,36 @@ fn scenario_files(dir: &PathBuf, sc: &str, key: &str) -> (String, String, String
             l[k] = format!("{}{}", &t[..t.len() - 1], "/");
             (ca, certp, damaged(l.join("\n") + "\n"))
         }
-        "wrong-label" => (ca, certp, damaged(text.replace("PRIVATE KEY", "SECRET THING"))),
-        "begin-in-body" => (ca, certp, damaged(format!("{}\n-----BEGIN {}\n{}\n", lines[0], lines[1], lines[2..].join("\n")))),
+        "wrong-label" => (
+            ca,
+            certp,
+            damaged(text.replace("PRIVATE KEY", "SECRET THING")),
+        ),
+        "begin-in-body" => (
+            ca,
+            certp,
+            damaged(format!(
+                "{}\n-----BEGIN {}\n{}\n",
+                lines[0],
+                lines[1],
+                lines[2..].join("\n")
+            )),
+        ),
         "no-final-newline" => (ca, certp, damaged(text.trim_end().to_string())),
         "crlf" => (ca, certp, damaged(lines.join("\r\n") + "\r\n")),
         _ => (ca, certp, keyp),
     }
 }
 
-fn run_agent(agent: &PathBuf, out: &PathBuf, sc: &str, key: &str, mode: &str, verbosity: &str, idx: usize) -> (String, Vec<(String, String)>, Secret) {
+fn run_agent(
+    agent: &PathBuf,
+    out: &PathBuf,
+    sc: &str,
+    key: &str,
+    mode: &str,
+    verbosity: &str,
+    idx: usize,
+) -> (String, Vec<(String, String)>, Secret) {
     let dir = out.join("logs-pem");
     std::fs::create_dir_all(&dir).unwrap();
     let (ca, cert, keyp) = scenario_files(&dir, sc, key);
@@ -800,16 +1161,50 @@ fn run_agent(agent: &PathBuf, out: &PathBuf, sc: &str, key: &str, mode: &str, ve
     if mode.ends_with("file") {
         cmd.arg("-l").arg(&logfile);
     }
-    cmd.args(["-f", if mode.starts_with("daemon") { "3600" } else { "0" }, "--irrd-host", "127.0.0.1", "--irrd-port", "1", "remote"]);
-    cmd.args(["--netconf-host", "127.0.0.1", "--netconf-port", &port.to_string(), "--tls-server-name", "localhost"]);
-    cmd.args(["--ca-cert-path", &ca, "--client-cert-path", &cert, "--client-key-path", &keyp]);
-    cmd.env_remove("RUST_LOG").env("RUST_BACKTRACE", "0").env("NO_COLOR", "1");
-    cmd.stdin(Stdio::null()).stdout(Stdio::piped()).stderr(Stdio::piped());
+    cmd.args([
+        "-f",
+        if mode.starts_with("daemon") {
+            "3600"
+        } else {
+            "0"
+        },
+        "--irrd-host",
+        "127.0.0.1",
+        "--irrd-port",
+        "1",
+        "remote",
+    ]);
+    cmd.args([
+        "--netconf-host",
+        "127.0.0.1",
+        "--netconf-port",
+        &port.to_string(),
+        "--tls-server-name",
+        "localhost",
+    ]);
+    cmd.args([
+        "--ca-cert-path",
+        &ca,
+        "--client-cert-path",
+        &cert,
+        "--client-key-path",
+        &keyp,
+    ]);
+    cmd.env_remove("RUST_LOG")
+        .env("RUST_BACKTRACE", "0")
+        .env("NO_COLOR", "1");
+    cmd.stdin(Stdio::null())
+        .stdout(Stdio::piped())
+        .stderr(Stdio::piped());
     let mut texts = vec![];
     let status;
     match cmd.spawn() {
         Ok(mut child) => {
-            let limit = if mode.starts_with("daemon") { Duration::from_millis(900) } else { Duration::from_secs(8) };
+            let limit = if mode.starts_with("daemon") {
+                Duration::from_millis(900)
+            } else {
+                Duration::from_secs(8)
+            };
             let t0 = Instant::now();
             loop {
                 if let Ok(Some(_)) = child.try_wait() {
@@ -833,8 +1228,14 @@ fn run_agent(agent: &PathBuf, out: &PathBuf, sc: &str, key: &str, mode: &str, ve
             }
             let o = child.wait_with_output().unwrap();
             status = format!("{:?}", o.status.code());
-            texts.push(("agent-stderr".to_string(), strip_ansi(&String::from_utf8_lossy(&o.stderr))));
-            texts.push(("agent-stdout".to_string(), strip_ansi(&String::from_utf8_lossy(&o.stdout))));
+            texts.push((
+                "agent-stderr".to_string(),
+                strip_ansi(&String::from_utf8_lossy(&o.stderr)),
+            ));
+            texts.push((
+                "agent-stdout".to_string(),
+                strip_ansi(&String::from_utf8_lossy(&o.stdout)),
+            ));
         }
         Err(e) => {
             status = format!("spawn failed: {e}");
@@ -843,7 +1244,12 @@ fn run_agent(agent: &PathBuf, out: &PathBuf, sc: &str, key: &str, mode: &str, ve
     for e in std::fs::read_dir(&dir).unwrap().flatten() {
         let n = e.file_name().to_string_lossy().to_string();
         if n.starts_with(&format!("agent-{idx}.log")) {
-            texts.push(("agent-logfile".to_string(), strip_ansi(&String::from_utf8_lossy(&std::fs::read(e.path()).unwrap_or_default()))));
+            texts.push((
+                "agent-logfile".to_string(),
+                strip_ansi(&String::from_utf8_lossy(
+                    &std::fs::read(e.path()).unwrap_or_default(),
+                )),
+            ));
             let _ = std::fs::remove_file(e.path());
         }
     }
@@ -876,14 +1282,20 @@ fn agent_verdict(texts: &[(String, String)], secret: &Secret, sink: &mut Sink) -
         if let Some((enc, pos)) = scan(text, &st, secret) {
             let (line, target) = if pos != usize::MAX {
                 let a = text[..pos].rfind('\n').map(|p| p + 1).unwrap_or(0);
-                let b = text[pos..].find('\n').map(|p| p + pos).unwrap_or(text.len());
+                let b = text[pos..]
+                    .find('\n')
+                    .map(|p| p + pos)
+                    .unwrap_or(text.len());
                 let line = &text[a..b];
                 // `<timestamp> LEVEL span…: target: message`
                 let mut target = "rust-main-return".to_string();
                 if line.len() > 30 && line.as_bytes()[4] == b'-' {
                     for w in line.split(": ") {
                         let w = w.rsplit(' ').next().unwrap_or("");
-                        if w.contains("::") && w.chars().all(|c| c.is_ascii_alphanumeric() || c == '_' || c == ':') {
+                        if w.contains("::")
+                            && w.chars()
+                                .all(|c| c.is_ascii_alphanumeric() || c == '_' || c == ':')
+                        {
                             target = w.to_string();
                             break;
                         }
@@ -893,11 +1305,19 @@ fn agent_verdict(texts: &[(String, String)], secret: &Secret, sink: &mut Sink) -
             } else {
                 (String::new(), "unattributed".to_string())
             };
-            sample_once(sink, format!("LEAK {} as {enc} in {wh}: {line}", secret.name));
+            sample_once(
+                sink,
+                format!("LEAK {} as {enc} in {wh}: {line}", secret.name),
+            );
             return if target == "rust-main-return" || target == "unattributed" || is_own(&target) {
                 format!("violation leak:{target}:{}:{}", secret.name, family(&enc))
             } else {
-                sink.count(&format!("dep-leak.{}.{}.{}", crate_of(&target), secret.name, family(&enc)));
+                sink.count(&format!(
+                    "dep-leak.{}.{}.{}",
+                    crate_of(&target),
+                    secret.name,
+                    family(&enc)
+                ));
                 "ok".to_string()
             };
         }
@@ -925,25 +1345,40 @@ fn count_source(sink: &mut Sink) {
         }
     }
     for c in ["netconf/src", "junos-agent/src"] {
-        walk(std::path::Path::new(&format!("{repo}/{c}")), &mut |t: &str| {
-            for l in t.lines() {
-                let l = l.trim_start();
-                if l.starts_with("//") {
-                    continue;
+        walk(
+            std::path::Path::new(&format!("{repo}/{c}")),
+            &mut |t: &str| {
+                for l in t.lines() {
+                    let l = l.trim_start();
+                    if l.starts_with("//") {
+                        continue;
+                    }
+                    instr += l.matches("#[tracing::instrument").count();
+                    for lv in ["trace!", "debug!", "info!", "warn!", "error!"] {
+                        ev += l.matches(&format!("tracing::{lv}")).count();
+                    }
                 }
-                instr += l.matches("#[tracing::instrument").count();
-                for lv in ["trace!", "debug!", "info!", "warn!", "error!"] {
-                    ev += l.matches(&format!("tracing::{lv}")).count();
-                }
-            }
-        });
+            },
+        );
     }
-    sink.corr("source-count;instrument", "logs count instrument".into(), instr.to_string());
-    sink.corr("source-count;event", "logs count event".into(), ev.to_string());
+    sink.corr(
+        "source-count;instrument",
+        "logs count instrument".into(),
+        instr.to_string(),
+    );
+    sink.corr(
+        "source-count;event",
+        "logs count event".into(),
+        ev.to_string(),
+    );
 }
 
 pub fn main(opts: &Opts) {
-    let mut ctx = Ctx { sink: Sink::new(), sites: BTreeSet::new(), out: opts.out.clone() };
+    let mut ctx = Ctx {
+        sink: Sink::new(),
+        sites: BTreeSet::new(),
+        out: opts.out.clone(),
+    };
     let mut cases: Vec<String> = vec![];
     if let Some(rp) = &opts.replay {
         for l in std::fs::read_to_string(rp).unwrap_or_default().lines() {
@@ -954,25 +1389,44 @@ pub fn main(opts: &Opts) {
         }
     } else {
         let mut rng = Rng::new(opts.seed);
-        cases.push("static;table-side-condition-of-log_noninterference(allSafe LogTableGen.table)".into());
+        cases.push(
+            "static;table-side-condition-of-log_noninterference(allSafe LogTableGen.table)".into(),
+        );
         cases.push("static;source-count".into());
         // SSH: every password accepted and rejected at TRACE; the first two under every directive
         for (i, pw) in PASSWORDS.iter().enumerate() {
             for accept in [true, false] {
-                cases.push(format!("ssh;{};{};{}", if accept { "accept" } else { "reject" }, hexs(pw), hexs("trace")));
+                cases.push(format!(
+                    "ssh;{};{};{}",
+                    if accept { "accept" } else { "reject" },
+                    hexs(pw),
+                    hexs("trace")
+                ));
             }
             if i < 2 || opts.thorough() {
                 for d in &DIRECTIVES[1..] {
-                    cases.push(format!("ssh;{};{};{}", if rng.chance(1, 2) { "accept" } else { "reject" }, hexs(pw), hexs(d)));
+                    cases.push(format!(
+                        "ssh;{};{};{}",
+                        if rng.chance(1, 2) { "accept" } else { "reject" },
+                        hexs(pw),
+                        hexs(d)
+                    ));
                 }
             }
         }
         // random passwords (printable, quotes, non-ASCII)
-        let alphabet: Vec<char> = "abcXYZ019 \"'\\{}%$#<>&;=\u{e9}\u{df}\u{4e2d}\u{1f600}\t".chars().collect();
+        let alphabet: Vec<char> = "abcXYZ019 \"'\\{}%$#<>&;=\u{e9}\u{df}\u{4e2d}\u{1f600}\t"
+            .chars()
+            .collect();
         for _ in 0..(if opts.thorough() { 40 } else { 4 }) {
             let n = 8 + rng.below(24);
             let pw: String = (0..n).map(|_| *rng.pick(&alphabet)).collect();
-            cases.push(format!("ssh;{};{};{}", if rng.chance(1, 2) { "accept" } else { "reject" }, hexs(&pw), hexs("trace")));
+            cases.push(format!(
+                "ssh;{};{};{}",
+                if rng.chance(1, 2) { "accept" } else { "reject" },
+                hexs(&pw),
+                hexs("trace")
+            ));
         }
         // TLS: every key format, success and the failure variants at TRACE; directives on the first key
         for key in KEYS {
@@ -1011,7 +1465,9 @@ pub fn main(opts: &Opts) {
         match p[0] {
             "static" if p[1].starts_with("table") => ctx.sink.spec(case, "logs specsafe".into()),
             "static" => count_source(&mut ctx.sink),
-            "ssh" if p.len() == 4 => run_ssh(&mut ctx, case, p[1] == "accept", &un(p[2]), &un(p[3])),
+            "ssh" if p.len() == 4 => {
+                run_ssh(&mut ctx, case, p[1] == "accept", &un(p[2]), &un(p[3]))
+            }
             "tls" if p.len() == 4 => run_tls(&mut ctx, case, p[1], p[2], &un(p[3])),
             "cli" if p.len() == 2 => run_cli(&mut ctx, case, &un(p[1])),
             "agent" if p.len() == 5 => agent_cases.push(case.clone()),
@@ -1019,20 +1475,35 @@ pub fn main(opts: &Opts) {
                 // a callsite row is a by-product of the connection cases: replay a representative set once
                 if ctx.sites.is_empty() {
                     run_ssh(&mut ctx, "site-replay;ssh", true, PASSWORDS[0], "trace");
-                    run_ssh(&mut ctx, "site-replay;ssh-reject", false, PASSWORDS[0], "trace");
+                    run_ssh(
+                        &mut ctx,
+                        "site-replay;ssh-reject",
+                        false,
+                        PASSWORDS[0],
+                        "trace",
+                    );
                     run_tls(&mut ctx, "site-replay;tls", "ok", "ed25519", "trace");
-                    run_tls(&mut ctx, "site-replay;tls-wrongca", "wrongca", "ed25519", "trace");
+                    run_tls(
+                        &mut ctx,
+                        "site-replay;tls-wrongca",
+                        "wrongca",
+                        "ed25519",
+                        "trace",
+                    );
                     run_cli(&mut ctx, "site-replay;cli", "trace");
                 }
             }
-            _ => ctx.sink.direct(case, "violation bad-case-descriptor".into()),
+            _ => ctx
+                .sink
+                .direct(case, "violation bad-case-descriptor".into()),
         }
     }
     if !agent_cases.is_empty() {
         match build_agent(&mut ctx.sink) {
             None => {
                 for c in &agent_cases {
-                    ctx.sink.direct(c, "violation agent-binary-unavailable".into());
+                    ctx.sink
+                        .direct(c, "violation agent-binary-unavailable".into());
                 }
             }
             Some(agent) => {
@@ -1048,12 +1519,28 @@ pub fn main(opts: &Opts) {
                     ctx.sink.direct(&case, v);
                     let p: Vec<&str> = case.split(';').collect();
                     ctx.sink.count(&format!("agent.{}.exit.{status}", p[3]));
-                    ctx.sink.add("captured.bytes.agent", texts.iter().map(|t| t.1.len() as u64).sum());
-                    ctx.sink.add("needles.searched", secret.needles.len() as u64);
-                    let all: String = texts.iter().map(|t| t.1.as_str()).collect::<Vec<_>>().join("\n");
-                    for marker in ["expected X.509 certificate, got", "expected private key, got", "failed to decode PEM", "no PEM section found", "[secret key elided]", "updater job failed"] {
+                    ctx.sink.add(
+                        "captured.bytes.agent",
+                        texts.iter().map(|t| t.1.len() as u64).sum(),
+                    );
+                    ctx.sink
+                        .add("needles.searched", secret.needles.len() as u64);
+                    let all: String = texts
+                        .iter()
+                        .map(|t| t.1.as_str())
+                        .collect::<Vec<_>>()
+                        .join("\n");
+                    for marker in [
+                        "expected X.509 certificate, got",
+                        "expected private key, got",
+                        "failed to decode PEM",
+                        "no PEM section found",
+                        "[secret key elided]",
+                        "updater job failed",
+                    ] {
                         if all.contains(marker) {
-                            ctx.sink.count(&format!("agent.saw.{}", marker.replace(' ', "_")));
+                            ctx.sink
+                                .count(&format!("agent.saw.{}", marker.replace(' ', "_")));
                         }
                     }
                 }
